@@ -8,7 +8,7 @@
 #include "mxh.h"
 using namespace vf; using namespace mxh;
 
-struct Scn { bool vclient; int ver; Suite su; int kind; /*0 full 1 cauth 2 resumed*/ std::vector<size_t> vsend, psend; long corrupt_at; /* absolute offset in P->V stream, -1 none */ uint8_t corrupt_mask; bool close; uint32_t eseed; bool bigchain; /* RSA identities with a two-certificate chain: Certificate records larger than the default 1500-byte input buffer */ int ccs_before; /* TLS 1.3: middlebox-compatibility CCS record inserted before this record of the P->V stream, -1 none */ bool eager; /* the peer application sends its first message the moment its handshake completes, so the record travels coalesced with the peer's final handshake flight */ bool followup; /* after the scenario a second connection reuses the victim's session id structure; whether it resumes is part of the trace */ };
+struct Scn { bool vclient; int ver; Suite su; int kind; /*0 full 1 cauth 2 resumed*/ std::vector<size_t> vsend, psend; long corrupt_at; /* absolute offset in P->V stream, -1 none */ uint8_t corrupt_mask; bool close; uint32_t eseed; bool bigchain; /* RSA identities with a two-certificate chain: Certificate records larger than the default 1500-byte input buffer */ int ccs_before; /* TLS 1.3: middlebox-compatibility CCS record inserted before this record of the P->V stream, -1 none */ bool eager; /* the peer application sends its first message the moment its handshake completes, so the record travels coalesced with the peer's final handshake flight */ int cli_sz; /* client-auth: client certificate of graded size (props/C18/pki/cli_sz_<n>.pem, n = 0..800 step 16), -1 = default identity */ bool followup; /* after the scenario a second connection reuses the victim's session id structure; whether it resumes is part of the trace */ };
 struct Part { int mode; /*0 whole 1 byte 2 small-random 3 record-straddle 4 big-random*/ size_t out_piece; bool defer; std::vector<uint16_t> sizes; bool use_readbuf_of_size; };
 struct Trace { std::vector<Event> ev; Bytes delivered; Bytes out; bool complete; std::string str() const { std::string s; for (auto &e : ev) s += fmt("(%d,%d,%d)", e.kind, e.a, e.b); return s; } };
 
@@ -21,11 +21,18 @@ static sslKeys_t *chain_keys(bool server) {
     return k;
 }
 
+static sslKeys_t *sized_client_keys(int n) {
+    sslKeys_t *k = nullptr; if (matrixSslNewKeys(&k, NULL) < 0) return nullptr;
+    std::string d = verif_dir(), c = d + fmt("/props/C18/pki/cli_sz_%d.pem", n), p = d + "/props/C18/pki/cli_sz.key", a = d + "/pki/ca_rsa.pem";
+    if (matrixSslLoadKeys(k, c.c_str(), p.c_str(), NULL, a.c_str(), NULL) < 0) { matrixSslDeleteKeys(k); return nullptr; }
+    return k;
+}
+
 static Trace run(const Scn &sc, const Part &pt, Ctx &c, bool is_ref, sslSessionId_t *sid) {
     vfh_entropy_reset(900 + sc.eseed); vfh_clock_set_ms(1000000);
     if (getenv("VFH_TRACE")) { vfh_trace = 1; fprintf(stderr, "=== run %s\n", is_ref ? "whole" : "chunked"); }
     // fresh key sets per run: the ephemeral ECDHE key cache inside sslKeys_t is state that would otherwise leak from the reference run into the chunked run
-    struct KG { sslKeys_t *k; ~KG() { if (k) matrixSslDeleteKeys(k); } } kc{ sc.bigchain && sc.kind == 1 ? chain_keys(false) : KeyStore::fresh(false, sc.su.auth, sc.kind == 1) }, ks{ sc.bigchain ? chain_keys(true) : KeyStore::fresh(true, sc.su.auth, true) };
+    struct KG { sslKeys_t *k; ~KG() { if (k) matrixSslDeleteKeys(k); } } kc{ sc.kind == 1 && sc.cli_sz >= 0 ? sized_client_keys(sc.cli_sz) : sc.bigchain && sc.kind == 1 ? chain_keys(false) : KeyStore::fresh(false, sc.su.auth, sc.kind == 1) }, ks{ sc.bigchain ? chain_keys(true) : KeyStore::fresh(true, sc.su.auth, true) };
     if (!kc.k || !ks.k) throw Discard{};
     Pair p; Config cc, scf; cc.client = true; scf.client = false; cc.versions = scf.versions = { sc.ver }; cc.suites = { sc.su.id }; cc.auth = scf.auth = sc.su.auth;
     cc.entropy_stream = 1; scf.entropy_stream = 2; cc.client_auth = scf.client_auth = (sc.kind == 1); cc.sid = sid;
@@ -33,7 +40,7 @@ static Trace run(const Scn &sc, const Part &pt, Ctx &c, bool is_ref, sslSessionI
     cc.keys = kc.k; scf.keys = ks.k; scf.cert_cb = cb_strict;
     if (p.s.open(scf) < 0 || p.c.open(cc) < 0) throw Discard{};
     Endpoint &V = sc.vclient ? p.c : p.s, &P = sc.vclient ? p.s : p.c;
-    V.out_piece = pt.out_piece; V.defer_pump = pt.defer;
+    V.out_piece = pt.out_piece; V.defer_pump = pt.defer; V.use_readbuf_of_size = pt.use_readbuf_of_size;
     size_t p2v_off = 0; size_t part_i = 0; int p2v_rec = 0; bool eager_done = false;
     Bytes vout_all;
     auto feed_v = [&](Bytes d) {
@@ -117,6 +124,7 @@ static void prop(Tape &t, Ctx &c) {
     sc.bigchain = sc.su.auth == AUTH_RSA && t.chance(1, 3);
     sc.ccs_before = (sc.ver == TLS13 && t.chance(1, 2)) ? (int) t.below(7) : -1;
     sc.eager = t.chance(1, 3); sc.followup = t.chance(1, 3);
+    sc.cli_sz = (sc.kind == 1 && sc.su.auth == AUTH_RSA && t.chance(1, 2)) ? (t.coin() ? 16 * (int) t.below(51) : 16 * (12 + (int) t.below(14))) : -1;
     Part pt; pt.mode = 1 + (int) t.below(4);
     pt.out_piece = t.chance(1, 2) ? (size_t) -1 : (size_t) t.pick(std::vector<int>{ 1, 2, 7, 100, 1000, 5000 });
     pt.defer = t.chance(1, 3); pt.use_readbuf_of_size = false;
@@ -127,7 +135,7 @@ static void prop(Tape &t, Ctx &c) {
         pt.sizes.push_back(v);
     }
     std::string vs, ps, zs; for (auto n : sc.vsend) vs += std::to_string(n) + ","; for (auto n : sc.psend) ps += std::to_string(n) + ","; for (auto n : pt.sizes) zs += std::to_string(n) + ",";
-    std::string desc = fmt("victim=%s %s %s kind=%d bigchain=%d ccs-before-rec=%d eager=%d followup=%d vsend=[%s] psend=[%s] close=%d corrupt@%ld^%02x | mode=%d sizes=[%s] out_piece=%zd defer=%d", sc.vclient ? "client" : "server", ver_name(sc.ver), sc.su.name, sc.kind, sc.bigchain, sc.ccs_before, sc.eager, sc.followup,
+    std::string desc = fmt("victim=%s %s %s kind=%d bigchain=%d cli-cert-pad=%d ccs-before-rec=%d eager=%d followup=%d vsend=[%s] psend=[%s] close=%d corrupt@%ld^%02x | mode=%d sizes=[%s] out_piece=%zd defer=%d", sc.vclient ? "client" : "server", ver_name(sc.ver), sc.su.name, sc.kind, sc.bigchain, sc.cli_sz, sc.ccs_before, sc.eager, sc.followup,
                            vs.c_str(), ps.c_str(), sc.close, sc.corrupt_at, sc.corrupt_mask, pt.mode, zs.c_str(), (ssize_t) pt.out_piece, pt.defer);
     c.sample(desc); if (c.verbose) fprintf(stderr, "case: %s\n", desc.c_str());
 
@@ -138,16 +146,19 @@ static void prop(Tape &t, Ctx &c) {
         if (sc.kind != 2 && !sc.followup) return;
         if (matrixSslNewSessionId(sid, NULL) < 0) throw Discard{};
         if (sc.kind != 2) return;
-        Scn s0 = sc; s0.kind = 0; s0.eager = false; s0.followup = false; s0.vsend.clear(); s0.psend.clear(); s0.close = false; s0.corrupt_at = -1; Part w; w.mode = 0; w.out_piece = (size_t) -1; w.defer = false;
+        Scn s0 = sc; s0.kind = 0; s0.eager = false; s0.followup = false; s0.vsend.clear(); s0.psend.clear(); s0.close = false; s0.corrupt_at = -1; Part w; w.mode = 0; w.out_piece = (size_t) -1; w.defer = false; w.use_readbuf_of_size = false;
         run(s0, w, c, true, *sid);
     };
-    Part whole; whole.mode = 0; whole.out_piece = (size_t) -1; whole.defer = false;
+    // reference run: every flight is handed over in one piece, with a read buffer requested for exactly that size
+    Part whole; whole.mode = 0; whole.out_piece = (size_t) -1; whole.defer = false; whole.use_readbuf_of_size = true;
+    if (pt.mode == 4 && t.coin()) pt.use_readbuf_of_size = true;
     sslSessionId_t *sid = nullptr;
     prime(&sid); Trace a = run(sc, whole, c, true, sid); if (sid) matrixSslDeleteSessionId(sid);
     prime(&sid); Trace b = run(sc, pt, c, false, sid); if (sid) matrixSslDeleteSessionId(sid);
     if (getenv("C18_DEBUG")) fprintf(stderr, "whole: complete=%d ev=%s delivered=%zu out=%zu\nchunked: complete=%d ev=%s delivered=%zu out=%zu\n", a.complete, a.str().c_str(), a.delivered.size(), a.out.size(), b.complete, b.str().c_str(), b.delivered.size(), b.out.size());
     c.count(a.complete ? "ref-handshake-complete" : "ref-handshake-failed");
     if (sc.eager) c.count("peer-data-coalesced-with-final-flight"); if (sc.followup) c.count("follow-up-connection-on-same-sid"); if (sc.eager && sc.followup && sc.vclient) c.count("eager+followup+client-victim");
+    if (sc.cli_sz >= 0) c.count("graded-client-certificate-size");
     if (sc.bigchain) c.count("two-certificate-chain"); if (sc.ccs_before >= 0) c.count("compat-ccs-injected"); if (sc.bigchain && sc.ccs_before >= 0) c.count("compat-ccs+large-certificate-record");
     c.count(fmt("mode:%d", pt.mode)); if (pt.defer) c.count("deferred-drain"); if (pt.out_piece != (size_t) -1) c.count("partial-sends");
     VF_CHECK(a.complete == b.complete, "chunking-changes-handshake-result", "handshake result differs: whole=%d chunked=%d; %s", a.complete, b.complete, desc.c_str());
@@ -158,7 +169,7 @@ static void prop(Tape &t, Ctx &c) {
         if (c.verbose) { auto dump = [&](const char *n, const Bytes &w) { fprintf(stderr, "%s:", n); for (auto &r : parse_records(w, false)) fprintf(stderr, " [t%u len%zu @%zu]", r.type, r.len, r.off); fprintf(stderr, "\n  around diff: %s\n", hex(w.data() + (i > 8 ? i - 8 : 0), std::min((size_t) 40, w.size() - (i > 8 ? i - 8 : 0))).c_str()); }; dump("whole  ", a.out); dump("chunked", b.out); }
         VF_FAIL("chunking-changes-output-bytes", "output differs at offset %zu (whole %zu bytes, chunked %zu bytes); %s", i, a.out.size(), b.out.size(), desc.c_str());
     }
-    c.nontrivial(fmt("%d|%d|%d|%d|%04x|%d|%d|%d|%d|%d", sc.bigchain, sc.ccs_before, sc.vclient, sc.ver, sc.su.id, sc.kind, pt.mode, pt.defer, pt.out_piece != (size_t) -1, sc.corrupt_at >= 0 ? (a.complete ? 1 : 2) : 0));
+    c.nontrivial(fmt("%d|%d|%d|%d|%d|%04x|%d|%d|%d|%d|%d", sc.cli_sz, sc.bigchain, sc.ccs_before, sc.vclient, sc.ver, sc.su.id, sc.kind, pt.mode, pt.defer, pt.out_piece != (size_t) -1, sc.corrupt_at >= 0 ? (a.complete ? 1 : 2) : 0));
 }
 VF_TARGET("C18.chunking", prop, 256, 120)
 namespace vf { void vf_global_init(int, char **) { mxh::global_open(); } }
